@@ -280,7 +280,7 @@ class Body:
                     env.pop(lhs['l'], None)
             return env
         for x, bx in enumerate(self.blocks):
-            if bx['cleanup'] or bx['term']['k'] != 'goto':
+            if bx['cleanup'] or bx['term']['k'] not in ('goto', 'drop'):
                 continue
             env = step_env({}, bx['stmts'], True)
             if not env:
